@@ -47,6 +47,20 @@ fn hard_shape(g: &mut Sm) -> (String, f64) {
     }
 }
 
+/// C02: every trimer radius / angle / distance, polygons with many sides
+fn c02_shape(g: &mut Sm) -> (String, f64) {
+    match g.below(5) {
+        0 => (format!("polygon:{}", 3 + g.below(62)), 1.),
+        1 => hard_shape(g),
+        _ => {
+            let r = (g.range(0.1, 1.5) * 1000.).round() / 1000.;
+            let ang = *g.pick(&[180., 120., 90., 60., 45., 30., 150., 100., 75., 10.]) + if g.chance(0.3) { g.range(-5., 5.) } else { 0. };
+            let d = (g.range(0.05, 2.5) * 1000.).round() / 1000.;
+            (format!("trimer:{}:{}:{}", fmt_f(r), fmt_f(ang), fmt_f(d)), d + r.max(1.))
+        }
+    }
+}
+
 fn lj_shape(g: &mut Sm) -> String {
     match g.below(3) {
         0 => "circle".into(),
@@ -270,6 +284,12 @@ pub fn gen(focus: &str, seed: u64, count: u64) -> Vec<String> {
                 let shape = lj_shape(&mut g);
                 let stream = g.below(3);
                 format!("kind=lj group={} shape={} {}", group, shape, state_params(&mut g, group, 1.5, stream))
+            }
+            "C02" => {
+                let group = *g.pick(&GROUPS);
+                let (shape, radius) = c02_shape(&mut g);
+                let stream = g.below(3);
+                format!("kind=hard group={} shape={} {}", group, shape, state_params(&mut g, group, radius, stream))
             }
             "C04" | "C08" | "C01" | "C10" if g.chance(0.12) => {
                 // optimised from the initial state (a clone is optimised, as the command line does)
